@@ -163,6 +163,16 @@ def r3(p, rep):
             t = iff.test
             if isinstance(t, ast.Compare) and isinstance(t.left, ast.Call) and isinstance(t.left.func, ast.Name) and t.left.func.id == "len":
                 coll = norm(t.left.args[0])
+            # `if any(<test> for v in S): raise`: the element test is the condition
+            anyc = []
+            if isinstance(t, ast.Call) and isinstance(t.func, ast.Name) and t.func.id == "any" and len(t.args) == 1 and isinstance(t.args[0], (ast.GeneratorExp, ast.ListComp)):
+                from sa.cfg import decompose as _dec
+
+                for c_ in [t.args[0].elt] + [i_ for g_ in t.args[0].generators for i_ in g_.ifs]:
+                    for tt, pol in _dec(c_, True):
+                        pos = common.as_positive(tt, pol)
+                        if pos is not None:
+                            anyc.append(pos)
             fills = []
             if coll:
                 for n in walk_no_nested(f.node):
@@ -173,11 +183,28 @@ def r3(p, rep):
                 last = max(resets) if resets else 0
                 fills = [x for x in fills if x.lineno > last]
             conds = []
+            # the collection built in one go: `failed = {e for ... if <test>}` - the filters are the conditions
+            if coll:
+                from sa.cfg import decompose
+
+                builds = [a for a in walk_no_nested(f.node) if isinstance(a, ast.Assign) and any(norm(t2) == coll for t2 in a.targets) and a.lineno < iff.lineno]
+                if builds:
+                    v = max(builds, key=lambda a: a.lineno).value
+                    if isinstance(v, ast.Call) and norm(v.func) in ("set", "list", "frozenset", "tuple", "sorted") and len(v.args) == 1:
+                        v = v.args[0]
+                    if isinstance(v, (ast.SetComp, ast.ListComp, ast.GeneratorExp)):
+                        for g in v.generators:
+                            for c in g.ifs:
+                                for tt, pol in decompose(c, True):
+                                    pos = common.as_positive(tt, pol)
+                                    if pos is not None:
+                                        conds.append(pos)
             for x in fills:
                 for tt, pol in cfg.guards_of_ast(x):
-                    if pol:
-                        conds.append(tt)
-            found[short] = (r, dominates, conds)
+                    pos = common.as_positive(tt, pol)  # `if k in sol: continue` guards the fill with `k not in sol`
+                    if pos is not None:
+                        conds.append(pos)
+            found[short] = (r, dominates, conds + anyc)
         for short, val in found.items():
             key = f"{f.qualname}:{short}"
             if val is None:
@@ -294,14 +321,16 @@ def r6(p, rep):
     rep.rule("C02.R6", "sizes given by the caller are validated to be integers before conversion", "T-DOM (guard form)", floor=2)
     targets = [(p.func("solve", "einx._src.namedtensor.solve"), "parameters"), (p.func("_input_expr", "namedtensor.stage2.solve"), "expr")]
     for f, what in targets:
+        # a raise that executes exactly when `issubdtype(...)` is false, however the branch is written
+        # (`if not issubdtype: raise`, `if issubdtype: ... else: raise`, through a named boolean ...)
         guards = []
-        for n in common.nodes_of(common.with_helpers(p, f)):
-            if isinstance(n, ast.If):
-                from sa.cfg import decompose
-
-                for t, pol in decompose(n.test, True):
-                    if pol is False and isinstance(t, ast.Call) and norm(t.func).endswith("issubdtype") and len(t.args) == 2:
-                        guards.append((n, t))
+        for g in common.with_helpers(p, f):
+            gcfg = common.cfg_of(g)
+            for n in walk_no_nested(g.node):
+                if isinstance(n, ast.Raise):
+                    for t, pol in gcfg.guards_of_ast(n):
+                        if pol is False and isinstance(t, ast.Call) and norm(t.func).endswith("issubdtype") and len(t.args) == 2:
+                            guards.append((n, t))
         key = f"{f.qualname}:integer-guard"
         if not guards:
             rep.violation("C02.R6", key, f.loc, f"{f.name} converts caller-supplied sizes without an `np.issubdtype(<dtype>, np.integer)` check")
@@ -309,7 +338,7 @@ def r6(p, rep):
         for iff, c in guards:
             r = p.resolve_expr(f.module, c.args[1], f.node)
             is_integer = bool(r and r[0] == "external" and r[1] == "numpy.integer")
-            raises = common.block_always_raises(iff.body)
+            raises = True  # `iff` is the raise itself
             rep.add(
                 "C02.R6",
                 key,
